@@ -103,7 +103,7 @@ def run(ctx):
             if r < 0.6:
                 # positions are re-requested (also after a clear): a small set of favourites plus arbitrary integers
                 arg = [ctx.rng.choice(favourites + [ctx.rng.randint(-3, N + 3), 0, N, N + 1, -1, 1]) for _ in range(ctx.rng.randint(0, 5))]
-                form = ctx.rng.choice(["list", "tuple", "int", "np-list", "np-array"])
+                form = ctx.rng.choice(["list", "tuple", "int", "np-list", "np-array", "generator", "iterator", "map", "range-like", "set-like"])
                 if form == "int" and arg:
                     arg = arg[:1]
                     out = common.call(o.set_phosphosites, arg[0])
@@ -115,6 +115,19 @@ def run(ctx):
                 elif form == "np-array":
                     import numpy as np
                     out = common.call(o.set_phosphosites, np.array(arg, dtype=int))
+                elif form == "generator":           # positions that can be walked through once only
+                    out = common.call(o.set_phosphosites, (x for x in list(arg)))
+                elif form == "iterator":
+                    out = common.call(o.set_phosphosites, iter(list(arg)))
+                elif form == "map":
+                    out = common.call(o.set_phosphosites, map(int, [str(x) for x in arg]))
+                elif form == "range-like":
+                    lo_ = ctx.rng.randint(-1, N)
+                    arg = list(range(lo_, lo_ + ctx.rng.randint(0, 4)))
+                    out = common.call(o.set_phosphosites, range(arg[0], arg[-1] + 1) if arg else range(0))
+                elif form == "set-like":
+                    arg = sorted(set(arg))
+                    out = common.call(o.set_phosphosites, dict.fromkeys(arg).keys())
                 else:
                     out = common.call(o.set_phosphosites, list(arg))
                 if out[0] != "ok":
